@@ -1,21 +1,22 @@
-\* C02 reciprocity -- quick
+\* C03 conservation, unit footprint sum, halo = zero padding -- quick
 CONSTANTS
   ShiftStyle = "pad" LevelStyle = "match" TruncStyle = "exact" AnalyticStyle = "outer" BCubic = "plus"
   Sizes = {302, 403}
   Cells = {11, 23}
-  Halos = {99, 0, 1, 2, 3, 4}
+  Halos = {0, 1, 3}
   ModeSet = {202, 402, 1212}
-  NZs = {3}
-  LevelLists = "single"
+  NZs = {4}
+  LevelLists = "asc"
   Tabs = {1}
-  Analytic = {FALSE}
-  Family = "recip"
+  Analytic = {FALSE, TRUE}
+  Family = "conserve"
 INIT Init
 NEXT Next
 CHECK_DEADLOCK FALSE
 INVARIANT StagesAgree
 INVARIANT ShapeOrError
-INVARIANT ErrorsAreDeclared
-INVARIANT Recip
+INVARIANT MeanFlux
+INVARIANT MeanConc
+INVARIANT HaloIsPadding
 INVARIANT RegularRun
 INVARIANT Emit
